@@ -1,3 +1,4 @@
+import Varint.Bridge.RLEDec
 import Varint.Lemmas.Adaptive
 import Varint.Lemmas.BP128
 import Varint.Lemmas.Dict
@@ -96,6 +97,31 @@ theorem rle_decAux_length (fuel room : Nat) (bs vs : List Nat) (h : RLE.decAux f
 theorem rle_trace_lt_cap (bs : List Nat) (cap : Nat) (vs : List Nat) (h : RLE.dec bs cap = some vs) :
     vs.length ≤ cap := rle_decAux_length _ _ _ _ h
 
+
+/-- **on the machine translation of `varintRLEDecode`** (outer loop over runs + inner fill loop, regenerated from
+    src/varintRLE.c on every run): for ANY readable byte string — run lengths above the capacity, equal to the room
+    left, up to 2^64-1 (where `decoded + runLength` wraps in size_t: defect D40, repaired) — and every capacity below
+    2^63 the C stores only at indices 0 … n-1 with n ≤ maxCount, each once and in order, and returns n.
+    A smaller capacity than the data yields the correct prefix. -/
+theorem c_rle_decode_within_capacity (bs : List Nat) (hb : ∀ b ∈ bs, b < 256) (cap : Nat) (hcap : cap < 2 ^ 63)
+    (vs : List Nat) (h : RLE.dec bs cap = some vs) (fuel : Nat) (hf : 2 * cap + 2 ≤ fuel) :
+    ∃ n stores, Varint.Gen.C.rleDecode fuel (Varint.Bridge.Tagged.bufOf bs) cap = some (n, stores) ∧ n ≤ cap ∧
+      stores.map Prod.fst = List.range' 0 n ∧ stores.map Prod.snd = vs := by
+  refine ⟨vs.length, Varint.Bridge.storesFrom 0 vs, Varint.Bridge.RLEDec.rleDecode_eq bs hb cap hcap vs h fuel hf,
+    rle_trace_lt_cap bs cap vs h, Varint.Bridge.storesFrom_fst 0 vs, Varint.Bridge.storesFrom_snd 0 vs⟩
+
+theorem c_rle_decode_prefix (xs : List Nat) (hx : ∀ x ∈ xs, x < 2 ^ 64) (cap : Nat) (hcap : cap ≤ xs.length)
+    (hn : xs.length < 2 ^ 63) (rest : List Nat) (hr : ∀ b ∈ rest, b < 256) (fuel : Nat) (hf : 2 * cap + 2 ≤ fuel) :
+    Varint.Gen.C.rleDecode fuel (Varint.Bridge.Tagged.bufOf (RLE.enc xs ++ rest)) cap =
+      some (cap, Varint.Bridge.storesFrom 0 (xs.take cap)) := by
+  have h := RLE.dec_enc_prefix xs hx (by omega) cap hcap rest
+  have hb : ∀ b ∈ RLE.enc xs ++ rest, b < 256 := by
+    intro b hbm
+    rcases List.mem_append.1 hbm with h1 | h1
+    · exact Varint.Bridge.RLEDec.enc_lt xs hx (by omega) b h1
+    · exact hr b h1
+  rw [Varint.Bridge.RLEDec.rleDecode_eq _ hb cap (by omega) _ h fuel hf]
+  simp [List.length_take, Nat.min_eq_left hcap]
 
 /-- group, any bytes: at most `maxFields` (and never more than 64) values are stored -/
 theorem group_trace_lt_cap (bs : List Nat) (cap : Nat) (vs : List Nat) (n : Nat)
